@@ -84,6 +84,23 @@ fn ev(name: &str, extra: Value, p: Option<Value>) -> Option<String> {
 /// piece of carried state early (rep distances, length trees, literal contexts), corrupt and truncated ones.
 fn lzma_pool(rng: &mut StdRng, p: Props) -> Vec<(Vec<u8>, Option<u64>, String)> {
     let mut v = vec![];
+    // streams that leave only PART of the state used (RawReuse.tla lets Decompress leave any subset):
+    // literal-only without marker: tables dirty, but state = 0 and rep = 0 as in a new decoder
+    for n in [40usize, 900] {
+        let prog: Vec<Sym> = (0..n).map(|_| Sym::Lit { b: rng.gen_range(0..4) * 70 }).collect();
+        let e = coding::encode_program(&prog, p);
+        v.push((e.payload.clone(), Some(n as u64), format!("literal-only-sized{}", n)));
+        v.push((e.payload[..e.payload.len() * 2 / 3].to_vec(), Some(n as u64), format!("literal-only-truncated{}", n)));
+    }
+    // literals + short reps / rep0 only: rep distances stay zero, state and length tables do not
+    {
+        let mut prog = vec![Sym::Lit { b: 5 }];
+        for i in 0..120u32 {
+            prog.push(if i % 3 == 0 { Sym::Short } else if i % 3 == 1 { Sym::Rep { r: 0, n: 2 + i % 20 } } else { Sym::Lit { b: (i % 7) as u8 } });
+        }
+        let e = coding::encode_program(&prog, p);
+        v.push((e.payload.clone(), Some(e.out.len() as u64), "rep0-only-sized".into()));
+    }
     for i in 0..4 {
         let mut prog = vec![Sym::Lit { b: 7 }, Sym::Rep { r: (i % 3 + 1) as u8, n: 2 + i as u32 * 9 }, Sym::Short];
         prog.extend(random_walk(rng, &WalkCfg { nsyms: 30 + i * 60, props: p, max_dist: 4096, lit_alphabet: 6 }).into_iter().skip(1));
@@ -148,6 +165,22 @@ fn lzma2_pool(rng: &mut StdRng) -> Vec<(Vec<u8>, String)> {
         s.push(0);
         v.push((s, format!("lenient-class{}-first", class)));
     }
+    // malformed framing must stay rejected however often the same object sees it
+    {
+        // class 3, lc = 4, lp = 1 (lc + lp > 4) with a well-formed payload under those properties
+        let (s, _, _) = lzma2_stream(&[Chunk::Lzma { class: 3, props: Some(Props { lc: 4, lp: 1, pb: 0 }), prog: vec![Sym::Lit { b: 1 }, Sym::Lit { b: 2 }, Sym::Match { d: 2, n: 6 }] }]);
+        v.push((s, "bad-props-lclp".into()));
+        let mut s = vec![0xE0u8, 0, 9, 0, 20, 225];
+        s.extend_from_slice(&[0u8; 21]);
+        s.push(0);
+        v.push((s, "bad-props-225".into()));
+    }
+    // literal-only LZMA chunk: leaves state 0 / rep 0 with used tables
+    {
+        let prog: Vec<Sym> = (0..300).map(|i| Sym::Lit { b: (i % 5) as u8 * 50 }).collect();
+        let (s, _, _) = lzma2_stream(&[Chunk::Lzma { class: 3, props: Some(pa), prog }]);
+        v.push((s, "literal-only".into()));
+    }
     // corrupt / truncated
     let (s, _, _) = lzma2_stream(&[Chunk::Lzma { class: 3, props: Some(pb), prog: walk(rng, pb, 150) }]);
     let mut c = s.clone();
@@ -175,6 +208,7 @@ pub fn run(prop: &str, seed: u64, nhist: usize, trace_path: Option<&str>, rep: &
         }
         let nops = rng.gen_range(2..8);
         let mut just_reset = false;
+        let mut last_idx = 0usize;
         let mut desc: Vec<String> = vec![];
         for _ in 0..nops {
             let op = if !just_reset && rng.gen_bool(0.45) {
@@ -203,6 +237,8 @@ pub fn run(prop: &str, seed: u64, nhist: usize, trace_path: Option<&str>, rep: &
                     }
                 }
                 Op::Dec(i) => {
+                    let i = if just_reset && rng.gen_bool(0.4) { last_idx } else { i };
+                    last_idx = i;
                     let (data, _, name) = &pool[i];
                     let r = dec1(&mut d, data);
                     desc.push(format!("decompress({})", name));
@@ -245,6 +281,7 @@ pub fn run(prop: &str, seed: u64, nhist: usize, trace_path: Option<&str>, rep: &
         }
         let nops = rng.gen_range(2..9);
         let mut just_reset = false;
+        let mut last2 = 0usize;
         let mut desc: Vec<String> = vec![];
         for _ in 0..nops {
             if !just_reset && rng.gen_bool(0.45) {
@@ -255,7 +292,9 @@ pub fn run(prop: &str, seed: u64, nhist: usize, trace_path: Option<&str>, rep: &
                     trace.push(e);
                 }
             } else {
-                let (data, name) = &pool[rng.gen_range(0..pool.len())];
+                let pick = if just_reset && rng.gen_bool(0.4) { last2 } else { rng.gen_range(0..pool.len()) };
+                last2 = pick;
+                let (data, name) = &pool[pick];
                 let r = dec2(&mut d, data);
                 desc.push(format!("decompress({})", name));
                 if let Some(e) = ev("decompress", json!({}), proj2(&d)) {
